@@ -22,8 +22,20 @@ Literals == { <<"literal", << I(1), S("a") >> >>, <<"literal", << S("1"), I(1), 
               <<"literal", << None, I(0) >> >>, <<"literal", << <<"bytes", <<1, 2>> >>, S("x") >> >>,
               <<"literal", << <<"lenum", Color, "RED">>, S("g") >> >>,
               <<"opt", <<"literal", << I(2), S("b") >> >> >> }
+\* two unions over the SAME members in PERMUTED order inside one shape / one field: each position resolves in its own order
+UP(a, b) == <<"union", <<a, b>> >>
+PermBases == { << <<"int">>, <<"float">> >>, << <<"str">>, <<"date">> >>, << <<"int">>, <<"str">> >>, << <<"bool">>, <<"int">> >>, << <<"float">>, <<"str">> >> }
+PermShapes == { <<"tuple", <<UP(p[1], p[2]), UP(p[2], p[1])>> >> : p \in PermBases }
+              \cup { <<"tuple", <<UP(p[2], p[1]), UP(p[1], p[2])>> >> : p \in PermBases }
+              \cup { UP(<<"list", UP(p[1], p[2])>>, <<"dict", <<"str">>, UP(p[2], p[1])>>) : p \in PermBases }
+              \cup { <<"dc", "PP", << <<"f", UP(p[1], p[2]), <<"req">>, <<>> >>, <<"g", UP(p[2], p[1]), <<"req">>, <<>> >>,
+                                      <<"h", <<"list", UP(p[1], p[2])>>, <<"fac", L(<<>>)>>, <<>> >>,
+                                      <<"i", <<"list", UP(p[2], p[1])>>, <<"fac", L(<<>>)>>, <<>> >> >>, <<>> >> : p \in PermBases }
+PermScalars == { S("1"), <<"float", 15, -1>>, S("2024-01-02"), B(TRUE), I(1), S("a") }
+PermInputs == { L(<<x, x>>) : x \in PermScalars } \cup { L(<<x>>) : x \in PermScalars } \cup { Dct(<< <<S("k"), x>> >>) : x \in PermScalars }
+              \cup { Dct(<< <<S("f"), x>>, <<S("g"), x>>, <<S("h"), L(<<x>>)>>, <<S("i"), L(<<x>>)>> >>) : x \in PermScalars }
 Types == Unions \cup Literals
-AllTypes == Types \cup { Holder(t) : t \in Types }
+AllTypes == Types \cup { Holder(t) : t \in Types } \cup PermShapes \cup { Holder(t) : t \in { q \in PermShapes : q[1] = "tuple" } }
 
 JScalars == { I(0), I(1), I(-7), <<"float", 15, -1>>, <<"float", 1, 0>>, B(TRUE), B(FALSE), None,
               S(""), S("a"), S("1"), S("1.5"), S("2024-01-02"), S("garbage"), S("r"), S("g"), S("AQI=\n"), S("x") }
@@ -35,7 +47,9 @@ J == JScalars \cup JOther
 Init == T = <<"start">> /\ v = <<"nov">> /\ kind = "start"
 Next == \/ kind = "start" /\ T' \in AllTypes /\ v' = v /\ kind' = "type"
         \/ kind = "type" /\ T' = T /\ v' \in Range(Smp(T)) /\ kind' = "value"
-        \/ kind = "type" /\ T' = T /\ v' \in J /\ kind' = "input"
+        \/ kind = "type" /\ T' = T /\ v' \in (IF T \in PermShapes THEN J \cup PermInputs ELSE J) /\ kind' = "input"
+        \/ kind = "type" /\ T[1] = "dc" /\ T[2] = "H" /\ FType(DcFields(T)[1]) \in PermShapes /\ T' = T
+           /\ v' \in { Dct(<< <<S("f"), L(<<x, x>>)>> >>) : x \in PermScalars } /\ kind' = "input"
 
 Cx == DefaultCx
 RECURSIVE Listify(_)
